@@ -636,6 +636,70 @@ def stage_slice_removals(ctx: Ctx):
                                           {**rec, 'detail': bad[1], 'src_now': m.src})
 
 
+def stage_optional_removals(ctx: Ctx):
+    """deterministic: while a walk stands at a node, an OPTIONAL single-node child of one of its ancestors (slice bounds, `as` target, raise cause, assert message, annotated
+    value, return annotation, case guard, return / yield value ...) that has not been walked yet - or that the walk is inside of - is removed: the walk never yields the
+    removed node or anything below it, does not raise, and the tree re-parses to itself; every on / back setting"""
+    import fst
+    hosts = [('x = a[b:c:d]\n', 'm.body[0].value.slice', ('lower', 'upper', 'step')), ('with a as (b, c), d as e: pass\n', 'm.body[0].items[0]', ('optional_vars',)),
+             ('raise a(b) from c(d)\n', 'm.body[0]', ('cause',)), ('assert a(b), c(d)\n', 'm.body[0]', ('msg',)), ('x: int(a) = v(w)\n', 'm.body[0]', ('value',)),
+             ('def f(a) -> r(s): pass\n', 'm.body[0]', ('returns',)), ('match v:\n    case 1 if g(h): pass\n', 'm.body[0].cases[0]', ('guard',)),
+             ('def f():\n    return u(v) + w\n', 'm.body[0].body[0]', ('value',)), ('def f():\n    x = yield y(z)\n', 'm.body[0].body[0].value', ('value',)),
+             ('def f(a: A(B) = d(e), *b: C(D), **c: E(F)): pass\n', 'm.body[0].args.args[0]', ('annotation',)), ('def f(a, *b: C(D), **c: E(F)): pass\n', 'm.body[0].args.vararg', ('annotation',)),
+             ('x = {a(b): c, **d(e)}\n' if False else 'try: pass\nexcept E(F) as g: pass\n', 'm.body[0].handlers[0]', ('type',)), ('type T[U: B(C)] = V\n', 'm.body[0].type_params[0]', ('bound',)),
+             ('x = f"{a!r:>{w(v)}}"\n', 'm.body[0].value.values[0]', ('format_spec',)), ('x = lambda: (yield)\ny = [i async for i in j(k)]\n' if False else 'x = a if b(c) else d\nfor i in j(k): pass\nelse: pass\n', 'm.body[0]', ('value',))]
+    for src, path, fields in hosts:
+        for field in fields:
+            for on in ('enter', 'leave', 'both'):
+                for back in (False, True):
+                    for where in ('before', 'inside'):
+                        for how in ('remove', 'put-none'):
+                            m = fst.FST(src, 'exec')
+                            host = eval(path, {'m': m})
+                            T = getattr(host, field, None)
+                            if not isinstance(T, fst.FST):
+                                continue
+                            t_ids = {id(f) for f in T.walk(True)}
+                            seen_t = False
+                            acted = False
+                            bad = None
+                            rec = {'src': src, 'host': path, 'field': field, 'act_when': where, 'how': how, 'walk': {'on': on, 'back': back}}
+                            try:
+                                steps = 0
+                                for g in m.walk(True, on, back=back):
+                                    steps += 1
+                                    if steps > 300:
+                                        raise RuntimeError('walk does not end')
+                                    node, leaving = g if isinstance(g, tuple) else (g, on == 'leave')
+                                    if acted and (node.a is None or not in_tree(m, node) or id(node) in t_ids):
+                                        bad = ('yield-detached', repr(node))
+                                        break
+                                    in_t = id(node) in t_ids
+                                    seen_t = seen_t or in_t
+                                    in_host = node is host or any(p is host for p in node.parents())
+                                    if not acted and ((where == 'before' and not seen_t and in_host and not in_t) or (where == 'inside' and in_t and node is not T)):
+                                        try:
+                                            if how == 'remove':
+                                                T.remove()
+                                            else:
+                                                host.put(None, field)
+                                        except Exception:
+                                            ctx.dist['optional-removal:refused'] = ctx.dist.get('optional-removal:refused', 0) + 1
+                                            break
+                                        acted = True
+                                        if reparse_diffs(m):
+                                            break       # the removal itself left an invalid tree (C01 / C03)
+                            except Exception as e:
+                                bad = (f'walk-raise|{type(e).__name__}', repr(e)[:200])
+                            if not acted:
+                                continue
+                            ctx.tick(('optional-removal', src, field, where, how, on, back), 'optional-removal:' + on + ':' + where)
+                            if bad:
+                                ctx.violation(f'{bad[0]}|optional-removal|{type(host.a).__name__ if host.a is not None else "?"}.{field}',
+                                              'after an optional child was removed during the walk the iteration raised or yielded a node that is no longer part of the tree',
+                                              {**rec, 'detail': bad[1], 'src_now': m.src})
+
+
 RESEND_PROGS = ['r = [a, [b, c], d]\n', 'x = f(a, g(b, k=c), d)\ny = 1\n', 'if a:\n    b = (c, {d: e})\nelse:\n    z = -w\n', 'v = [i for i in (j, k) if l]\n']
 
 
@@ -811,6 +875,7 @@ def run(ctx: Ctx):
     run_guarded(ctx, stage_resend)
     run_guarded(ctx, stage_entry_send)
     run_guarded(ctx, stage_slice_removals)
+    run_guarded(ctx, stage_optional_removals)
     run_guarded(ctx, stage_search_send)
     run_guarded(ctx, stage_leave_corr, progs)
     run_guarded(ctx, stage_corr, progs)
